@@ -33,7 +33,7 @@ struct Signer {
 	const char *name;
 	tmcg_openpgp_pkalgo_t algo;
 	gcry_sexp_t key;
-	octets pubpkt, body, fpr, kid;
+	octets pubpkt, body, fpr, kid, block;   // block = key + user id + positive certification (for gpg)
 	TMCG_OpenPGP_Pubkey *pub;
 	std::vector<std::string> fields;   // for the Python verifier
 };
@@ -89,6 +89,25 @@ static void setup_signers()
 	}
 	for (size_t i = 0; i < K.missing.size(); i++)
 		R->counters["missing_" + K.missing[i]] = 1;
+}
+
+static bool make_sig(const Signer &s, const octets &prep, const octets &hash, const octets &left, int hashalgo, octets &pkt);
+static void make_blocks()
+{
+	for (size_t i = 0; i < SG.size(); i++)
+	{
+		Signer &s = SG[i];
+		octets uidpkt, prep, h, l, sig, none, flags(1, 0x03);
+		std::string uid = std::string(s.name) + " Signer <signer@example.org>";
+		L::PacketUidEncode(uid, uidpkt);
+		L::PacketSigPrepareSelfSignature(TMCG_OPENPGP_SIGNATURE_POSITIVE_CERTIFICATION, s.algo, TMCG_OPENPGP_HASHALGO_SHA256, KEYTIME + 1, 0, flags, s.fpr, false, prep);
+		L::CertificationHash(s.body, uid, none, prep, TMCG_OPENPGP_HASHALGO_SHA256, h, l);
+		if (!make_sig(s, prep, h, l, 8, sig))
+			continue;
+		s.block = s.pubpkt;
+		s.block.insert(s.block.end(), uidpkt.begin(), uidpkt.end());
+		s.block.insert(s.block.end(), sig.begin(), sig.end());
+	}
 }
 
 // sign `hash` and wrap it; false if the algorithm cannot sign a digest of that size (DSA with a digest shorter than q)
@@ -164,6 +183,12 @@ static bool lib_verify(const octets &sigpkt, gcry_sexp_t key, const Target &t)
 
 static std::vector<int> flip_bits() { std::vector<int> b(1, 0); if (TH) b.push_back(7); return b; }
 
+static void crash_viol(int sg, const std::string &ctx, const std::string &detail, const std::string &cid)
+{
+	R->counters["library_crashes"]++;
+	R->viol("crash/" + ctx, "signal " + str(sg) + " inside the library while checking " + detail, cid);
+}
+
 // every octet of the signature packet
 static void tamper_sigpkt(const octets &pkt, gcry_sexp_t key, const Target &t, const std::string &cid, const std::string &what)
 {
@@ -174,71 +199,100 @@ static void tamper_sigpkt(const octets &pkt, gcry_sexp_t key, const Target &t, c
 		R->viol("sig/own-packet-unparseable", "the independent parser cannot read the library's own signature packet " + hex(pkt).substr(0, 200), cid);
 		return;
 	}
-	std::vector<int> bits = flip_bits();
-	for (size_t pos = 0; pos < pkt.size(); pos++)
-		for (size_t bi = 0; bi < bits.size(); bi++)
+	std::vector<int> bits = flip_bits(), sigs;
+	size_t nb = bits.size();
+	std::string verdict = forked_scan(pkt.size() * nb, [&](size_t i) {
+		octets m(pkt);
+		m[i / nb] ^= (1u << bits[i % nb]);
+		return lib_verify_raw(m, key, t);
+	}, sigs);
+	for (size_t i = 0; i < verdict.size(); i++)
+	{
+		size_t pos = i / nb;
+		int bit = bits[i % nb];
+		octets m(pkt);
+		m[pos] ^= (1u << bit);
+		PktView v1 = view_packet(m);
+		bool same = v1.ok && v1.tag == 2 && v1.end == m.size() && same_sem(s0, sig_semantics(v1.body));
+		R->ok(true);
+		R->counters[same ? "sig_flips_unconstrained" : "sig_flips_covered"]++;
+		if (verdict[i] == 'C')
 		{
-			octets m(pkt);
-			m[pos] ^= (1u << bits[bi]);
-			PktView v1 = view_packet(m);
-			bool same = v1.ok && v1.tag == 2 && v1.end == m.size() && same_sem(s0, sig_semantics(v1.body));
-			bool acc = lib_verify(m, key, t);
-			R->ok(true);
-			R->counters[same ? "sig_flips_unconstrained" : "sig_flips_covered"]++;
-			if (same && acc) R->counters["sig_flips_unconstrained_accepted"]++;
-			if (!same && acc)
-				R->viol("tamper/sigpacket-accepted/" + what, "signature still verifies with octet " + str(pos) + " bit " + str(bits[bi]) + " flipped; packet " + hex(m).substr(0, 300), cid);
+			bool unk = v1.ok && v1.body.size() > 3 && !mapped_hash(v1.body[3]);
+			crash_viol(sigs[i], unk ? "verify-unknown-hash" : "verify-altered-signature", what + " signature with octet " + str(pos) + " bit " + str(bit) + " flipped: " + hex(m).substr(0, 200), cid);
+			continue;
 		}
+		if (same && verdict[i] == 'A') R->counters["sig_flips_unconstrained_accepted"]++;
+		if (!same && verdict[i] == 'A')
+			R->viol("tamper/sigpacket-accepted/" + what, "signature still verifies with octet " + str(pos) + " bit " + str(bit) + " flipped; packet " + hex(m).substr(0, 300), cid);
+	}
 }
 
 // every octet of a hashed object (document, key body, user id ...): `mut` installs the mutated octets in a Target copy
 template<class F> static void tamper_object(const octets &obj, const octets &sigpkt, gcry_sexp_t key, const Target &t, F mut, bool text,
 	const std::string &cid, const std::string &what)
 {
-	std::vector<int> bits = flip_bits();
-	for (size_t pos = 0; pos < obj.size(); pos++)
-		for (size_t bi = 0; bi < bits.size(); bi++)
+	std::vector<int> bits = flip_bits(), sigs;
+	size_t nb = bits.size();
+	std::string verdict = forked_scan(obj.size() * nb, [&](size_t i) {
+		octets m(obj);
+		m[i / nb] ^= (1u << bits[i % nb]);
+		Target t2(t);
+		mut(t2, m);
+		return lib_verify_raw(sigpkt, key, t2);
+	}, sigs);
+	for (size_t i = 0; i < verdict.size(); i++)
+	{
+		size_t pos = i / nb;
+		int bit = bits[i % nb];
+		octets m(obj);
+		m[pos] ^= (1u << bit);
+		if (text && canon_text(m) == canon_text(obj))
 		{
-			octets m(obj);
-			m[pos] ^= (1u << bits[bi]);
-			if (text && canon_text(m) == canon_text(obj))
-			{
-				R->counters["doc_flips_same_canonical_text"]++;
-				continue;
-			}
-			Target t2(t);
-			mut(t2, m);
-			bool acc = lib_verify(sigpkt, key, t2);
-			R->ok(true);
-			R->counters["object_flips"]++;
-			if (acc)
-				R->viol("tamper/object-accepted/" + what, "signature still verifies with octet " + str(pos) + " bit " + str(bits[bi]) + " of the " + what + " flipped", cid);
+			R->counters["doc_flips_same_canonical_text"]++;
+			continue;
 		}
+		R->ok(true);
+		R->counters["object_flips"]++;
+		if (verdict[i] == 'C')
+			crash_viol(sigs[i], "verify-altered-object", what + " with octet " + str(pos) + " bit " + str(bit) + " flipped", cid);
+		else if (verdict[i] == 'A')
+			R->viol("tamper/object-accepted/" + what, "signature still verifies with octet " + str(pos) + " bit " + str(bit) + " of the " + what + " flipped", cid);
+	}
 }
 
 // every octet of the signer's key packet (the library parses the mutated packet itself)
 static void tamper_keypkt(const Signer &s, const octets &sigpkt, const Target &t, const std::string &cid)
 {
 	KeySem k0 = key_semantics(s.body);
-	std::vector<int> bits = flip_bits();
-	for (size_t pos = 0; pos < s.pubpkt.size(); pos++)
-		for (size_t bi = 0; bi < bits.size(); bi++)
-		{
-			octets m(s.pubpkt);
-			m[pos] ^= (1u << bits[bi]);
-			PktView v1 = view_packet(m);
-			bool same = v1.ok && v1.tag == 6 && v1.end == m.size() && same_keymat(k0, key_semantics(v1.body));
-			TMCG_OpenPGP_Pubkey *p = NULL;
-			bool acc = false;
-			if (L::PublicKeyBlockParse(m, 0, p) && p)
-				acc = p->Good() && lib_verify(sigpkt, p->key, t);
-			if (p)
-				delete p;
-			R->ok(true);
-			R->counters[same ? "key_flips_unconstrained" : "key_flips_covered"]++;
-			if (!same && acc)
-				R->viol("tamper/keypacket-accepted", std::string(s.name) + ": signature verifies under a key packet with octet " + str(pos) + " bit " + str(bits[bi]) + " flipped", cid);
-		}
+	std::vector<int> bits = flip_bits(), sigs;
+	size_t nb = bits.size();
+	std::string verdict = forked_scan(s.pubpkt.size() * nb, [&](size_t i) {
+		octets m(s.pubpkt);
+		m[i / nb] ^= (1u << bits[i % nb]);
+		TMCG_OpenPGP_Pubkey *p = NULL;
+		bool acc = false;
+		if (L::PublicKeyBlockParse(m, 0, p) && p)
+			acc = p->Good() && lib_verify_raw(sigpkt, p->key, t);
+		if (p)
+			delete p;
+		return acc;
+	}, sigs);
+	for (size_t i = 0; i < verdict.size(); i++)
+	{
+		size_t pos = i / nb;
+		int bit = bits[i % nb];
+		octets m(s.pubpkt);
+		m[pos] ^= (1u << bit);
+		PktView v1 = view_packet(m);
+		bool same = v1.ok && v1.tag == 6 && v1.end == m.size() && same_keymat(k0, key_semantics(v1.body));
+		R->ok(true);
+		R->counters[same ? "key_flips_unconstrained" : "key_flips_covered"]++;
+		if (verdict[i] == 'C')
+			crash_viol(sigs[i], std::string("verify-altered-key/") + s.name, std::string(s.name) + " key packet with octet " + str(pos) + " bit " + str(bit) + " flipped (body offset " + str((long)pos - (long)v1.hdrlen) + ")", cid);
+		else if (!same && verdict[i] == 'A')
+			R->viol("tamper/keypacket-accepted", std::string(s.name) + ": signature verifies under a key packet with octet " + str(pos) + " bit " + str(bit) + " flipped", cid);
+	}
 }
 
 // ------------------------------------------------------------------------------------------------ documents
@@ -350,7 +404,7 @@ static void fam_doc()
 						if (TH && ver == 4 && di == 0 && (h == 8 || h == 10 || h == 2))
 						{
 							// secondary judge (gpg, if installed): self-signed key + detached signature
-							RO.emit("pgp.gpgverify", { hex(s.pubpkt), num(s.algo), hex(pkt), hex(doc), type ? "text" : "binary" }, "1", cid);
+							RO.emit("pgp.gpgverify", { hex(s.block), num(s.algo), hex(pkt), hex(doc), type ? "text" : "binary" }, "1", cid);
 						}
 						if (di != 0 && !(di == 2 && type == 1))
 							continue;
@@ -384,6 +438,7 @@ int main(int argc, char **argv)
 	TH = A.tier == "thorough";
 	MuteCerr mute;
 	setup_signers();
+	make_blocks();
 	Guard::install();
 	if (family == "doc") fam_doc();
 	else if (family == "types") fam_types();
